@@ -2,6 +2,8 @@
 From NL.Model Require Import VM Pipeline.
 From NL.Spec Require Import Sem Fragment3.
 From NL.Proofs Require VMStepProofs CompileCorrectI.
+From NL.Spec Require Import Sem Fragment Fragment2 Fragment2h Fragment3 Fragment4.
+From NL.Proofs Require CompileCorrectJ9 CompileCorrectJ10.
 Import VMStepProofs.
 Open Scope Z_scope.
 
@@ -73,6 +75,14 @@ Proof. exact VMStepProofs.nested_activations_disjoint. Qed.
 Theorem step_preserves_wf : forall (orc : oracle) (prog : program) (s : vm) (r : stepres), VMStepProofs.vm_wf s -> step orc prog s = Ok r -> VMStepProofs.vm_wf (VMStepProofs.state_of r).
 Proof. exact VMStepProofs.step_preserves_wf. Qed.
 
+(* SOURCE level, WHOLE language outside the exclusions of DESIGN 4.3 (functions, heap values, builtins together, collector running): the compiled program computes exactly what the definitional semantics assigns to the tree - which decides this property for every such program of the model *)
+Theorem compile_correct_F4 : forall (orc : oracle) (p : block), in_F4 p = true -> ends_expr p = true -> lits_exact (lits_b p) -> forall bc : bytecode, compile p = Ok bc -> forall fuel : nat, (size3_b p <= fuel)%nat -> sem_program orc fuel p <> SemFuel -> sem_small orc fuel p (length (b_constants bc)) -> (exists budget : nat, obs_eq4 (run_program orc bc budget) (sem_program orc fuel p)) \/ hits_excluded4 (CompileCorrectJ5.fun_table p) orc bc.
+Proof. exact CompileCorrectJ9.compile_correct_F4. Qed.
+
+(* across a call the location correspondence only grows: every box the caller knew - an array passed as argument in particular - keeps its partner, with related contents after the call (modified in the callee = modified for the caller) *)
+Theorem arrays_shared_across_calls : forall (orc : oracle) (K : Z) (pl : list (const * val)) (Bd : Z), Bd + K + 1 < 2 ^ 60 -> forall (f : nat) (fv fv' : val) (vs vs' : list val) (yS yM : CompileCorrectJ2.yst) (R : loc_rel) (v : val) (y3 : CompileCorrectJ2.yst), CompileCorrectJ6.vrm R fv fv' -> Forall2 (CompileCorrectJ6.vrm R) vs vs' -> CompileCorrectJ7.YR K pl R yS yM -> CompileCorrectJ2.ycall orc CompileCorrectJ2.lit_fresh f fv vs yS = CompileCorrectJ2.YOk v y3 -> CompileCorrectJ3.yn y3 <= Bd -> exists (v' : val) (y3' : CompileCorrectJ2.yst) (R' : loc_rel), CompileCorrectJ2.ycall orc (CompileCorrectJ2.lit_pool pl) f fv' vs' yM = CompileCorrectJ2.YOk v' y3' /\ CompileCorrectH3.rel_incl R R' /\ CompileCorrectJ6.vrm R' v v' /\ CompileCorrectJ7.YR K pl R' y3 y3' /\ (forall l l' : positive, R l l' -> exists o o' : obj, h_get (CompileCorrectH1.hs_heap (CompileCorrectJ2.y_m y3)) l = Ok o /\ h_get (CompileCorrectH1.hs_heap (CompileCorrectJ2.y_m y3')) l' = Ok o' /\ CompileCorrectJ6.orm R' o o').
+Proof. exact CompileCorrectJ10.arrays_shared_across_calls. Qed.
+
 
 Print Assumptions compile_correct_F3.
 Print Assumptions args_left_to_right.
@@ -91,3 +101,5 @@ Print Assumptions call_return_roundtrip.
 Print Assumptions activations_disjoint.
 Print Assumptions nested_activations_disjoint.
 Print Assumptions step_preserves_wf.
+Print Assumptions compile_correct_F4.
+Print Assumptions arrays_shared_across_calls.
